@@ -130,6 +130,7 @@ fn check_value(cx: &Cx, ti: usize, x: u64) -> Vec<(String, String)> {
             let c = TlsCompressionID(x as u8);
             conv("u8::from", u8::from(c) as u64);
             conv("Deref", *c as u64);
+            conv("to_be_bytes", c.to_be_bytes()[0] as u64);
             let a: &u8 = c.as_ref();
             conv("AsRef", *a as u64);
         }
@@ -201,6 +202,9 @@ fn check_value(cx: &Cx, ti: usize, x: u64) -> Vec<(String, String)> {
 fn check_cipher_id(cx: &Cx, x: u16) -> Vec<(String, String)> {
     let mut out = Vec::new();
     let c = TlsCipherSuiteID(x);
+    if c.to_be_bytes() != x.to_be_bytes() {
+        out.push(("to_be_bytes".into(), format!("TlsCipherSuiteID({:#06x}).to_be_bytes() = {:?}", x, c.to_be_bytes())));
+    }
     if u16::from(c) != x || *c != x || *AsRef::<u16>::as_ref(&c) != x {
         out.push(("conv".into(), format!("TlsCipherSuiteID({}) conversions are not the identity", x)));
     }
